@@ -422,6 +422,9 @@ MUTANTS = [
     ("c12-poincare-midpoint-unnormalised", ["C12"], "HOM1", H,
      "            klein_basis = self.ideal_basis_coords(model=Model.KLEIN)\n            klein_midpoint = klein_basis.sum(axis=-2) / klein_basis.shape[-2]",
      "            klein_midpoint = kleinian_coords(self.ideal_basis.sum(axis=-2))"),
+    ("c15-reflection-transpose-for-inverse", ["C15"], "HOM1", H,
+     "        refdata = (utils.invert(dual_data) @\n                   self.minkowski @\n                   dual_data)",
+     "        refdata = (dual_data.swapaxes(-1, -2) @\n                   self.minkowski @\n                   dual_data)"),
     # ---- C15
     ("c15-drop-reflection-guard", ["C15"], "R1", H,
      "        if (np.abs(eval_differences) > ERROR_THRESHOLD).any():\n            raise GeometryError(\"Not a reflection matrix\")\n",
